@@ -13,6 +13,7 @@
 #include <cstring>
 #include <string>
 #include <vector>
+#include <deque>
 #include <list>
 
 #ifndef C14_MAXN
@@ -24,11 +25,14 @@ struct tag_t
 };
 
 static unsigned long long g_cells = 0, g_mismatch = 0, g_asserts = 0, g_strlen_cells = 0;
-static unsigned long long g_per_op[16];
+static unsigned long long g_per_op[24];
 static const char* const op_names[] = {"assign_string_cstr", "assign_string_range", "assign_range_vector",
                                        "assign_range_list", "assign_iter", "assign_ilist", "assign_count",
                                        "fill", "raw_assign_range", "strlen", "strlen_r", "assign_single_pass_iter",
-                                       "assign_range_single_pass", "assign_string_single_pass_range"};
+                                       "assign_range_single_pass", "assign_string_single_pass_range",
+                                       // sources whose element type is not the array's value type (converted element-wise)
+                                       "assign_range_vector_int", "assign_range_vector_ushort", "assign_range_deque_short",
+                                       "assign_iter_long", "assign_string_u16string", "assign_string_vector_int"};
 static const char alphabet[3] = {'\0', 'a', 'b'};
 
 // genuinely single-pass input iterator (istream_iterator semantics): all copies share one source position, reading through
@@ -318,6 +322,23 @@ struct tester
                             bool as = VRT_TRAPPED(ret = static_cast<std::size_t>(a.assign_string(s, modes[m]) - a.begin()));
                             check(1, m, init, in, L, buf, ret, e, as);
                         }
+                        // (18) (19) assign_string(range, mode) from ranges of wider elements
+                        {
+                            std::u16string ws;
+                            std::vector<int> vi;
+                            for(std::size_t i = 0; i < L; i++)
+                            {
+                                ws.push_back(static_cast<char16_t>(in[i]));
+                                vi.push_back(in[i]);
+                            }
+                            expectation ew = ref_assign(N, init, in, L, m);
+                            prep(buf, init);
+                            bool asw = VRT_TRAPPED(ret = static_cast<std::size_t>(a.assign_string(ws, modes[m]) - a.begin()));
+                            check(18, m, init, in, L, buf, ret, ew, asw);
+                            prep(buf, init);
+                            asw = VRT_TRAPPED(ret = static_cast<std::size_t>(a.assign_string(vi, modes[m]) - a.begin()));
+                            check(19, m, init, in, L, buf, ret, ew, asw);
+                        }
                         // (13) assign_string(single-pass range, mode)
                         {
                             Value tmp[C14_MAXN + 1];
@@ -361,6 +382,33 @@ struct tester
                         prep(buf, init);
                         bool as = VRT_TRAPPED(ret = static_cast<std::size_t>(a.assign_range(v) - a.begin()));
                         check(3, -1, init, in, L, buf, ret, e, as);
+                    }
+                    // (14)-(17) sources whose elements are wider than / different from the array's value type: every element
+                    // is converted on its own (contiguous wide, contiguous 2-byte, random-access non-contiguous, raw pointers)
+                    {
+                        std::vector<int> vi;
+                        std::vector<unsigned short> vu;
+                        std::deque<short> dq;
+                        long tl[C14_MAXN + 1];
+                        for(std::size_t i = 0; i < L; i++)
+                        {
+                            vi.push_back(in[i]);
+                            vu.push_back(in[i]);
+                            dq.push_back(in[i]);
+                            tl[i] = in[i];
+                        }
+                        prep(buf, init);
+                        bool as = VRT_TRAPPED(ret = static_cast<std::size_t>(a.assign_range(vi) - a.begin()));
+                        check(14, -1, init, in, L, buf, ret, e, as);
+                        prep(buf, init);
+                        as = VRT_TRAPPED(ret = static_cast<std::size_t>(a.assign_range(vu) - a.begin()));
+                        check(15, -1, init, in, L, buf, ret, e, as);
+                        prep(buf, init);
+                        as = VRT_TRAPPED(ret = static_cast<std::size_t>(a.assign_range(dq) - a.begin()));
+                        check(16, -1, init, in, L, buf, ret, e, as);
+                        prep(buf, init);
+                        as = VRT_TRAPPED(ret = static_cast<std::size_t>(a.assign(tl, tl + L) - a.begin()));
+                        check(17, -1, init, in, L, buf, ret, e, as);
                     }
                     // (4) assign(first, last)
                     {
@@ -474,7 +522,7 @@ struct for_n<0>
 int main()
 {
     for_n<C14_MAXN>::run();
-    for(int i = 0; i < 14; i++)
+    for(int i = 0; i < 20; i++)
         std::printf("OP %s %llu\n", op_names[i], g_per_op[i]);
     std::printf("TOTAL cells=%llu strlen_cells=%llu mismatches=%llu asserts=%llu\n", g_cells, g_strlen_cells, g_mismatch,
                 g_asserts);
